@@ -12,6 +12,7 @@ fn registry() -> Vec<(&'static str, MainFn, ReplayFn)> {
         ("C01", props::c01::main as MainFn, props::c01::replay as ReplayFn),
         ("C02", props::c02::main as MainFn, props::c02::replay as ReplayFn),
         ("C03", props::c03::main as MainFn, props::c03::replay as ReplayFn),
+        ("C06", props::c06::main as MainFn, props::c06::replay as ReplayFn),
         ("C07", props::c07::main as MainFn, props::c07::replay as ReplayFn),
         ("C08", props::c08::main as MainFn, props::c08::replay as ReplayFn),
         ("C09", props::c09::main as MainFn, props::c09::replay as ReplayFn),
